@@ -20,6 +20,67 @@ CHECKS = {
     ),
 }
 
+CORE_NOTE = "Bounds: generated program families (sizes in the evidence), paths up to MaxCalls, numbers in the exact dyadic window; literal text plain ASCII. Trusted: TLC; the Go harness's rendering of cases to Yarn text and its observation code; the refinement YarnRunner => YarnSem is checked by TLC on the same bounded family only."
+
+CHECKS.update({
+    "C01": dict(
+        category="model_checking",
+        text="TLC checks, for every generated program and every choice path, that the implementation-shaped stack machine (YarnRunner.tla) presents exactly "
+             "what the declarative structural semantics (YarnSem.tla) prescribes, that Next's argument is ignored unless a choice is pending; every maximal "
+             "behaviour TLC enumerates is replayed on the real runner and random walks of bigger programs under random layouts are trace-validated (YarnTrace.tla).",
+        design_ref="DESIGN.md section 6 (C01)", note=CORE_NOTE,
+        technique="TLA+ refinement check (TLC) + replay of all enumerated behaviours + trace validation",
+    ),
+    "C03": dict(
+        category="model_checking",
+        text="TLC checks type stability, failed-statement-changes-nothing and store-equals-logged-writes as action properties over all assignment histories with a host write "
+             "at every position, and that the three-map storer refines a one-map store for all setter histories; all behaviours are replayed on a recording storer, the "
+             "library's InMemoryStorer and an independent one-map Storer; longer random histories with host writes are trace-validated.",
+        design_ref="DESIGN.md section 6 (C03)", note=CORE_NOTE,
+        technique="TLA+ action properties + storer refinement (TLC) + behaviour replay + trace validation",
+    ),
+    "C05": dict(
+        category="exploration",
+        text="The load protocol (per-reader validity facts -> runner/error, never panic) is a TLA+ specification model-checked for all outcome vectors of <=3 readers; every row with "
+             "concrete content is turned into bytes and loaded; generated, mutated and random inputs split over readers are loaded with the real NewDialogueRunner and each load "
+             "event is judged by the trace specification, with an independent ANTLR error listener deciding syntactic validity.",
+        design_ref="DESIGN.md section 6 (C05)",
+        note="The input space is sampled (sizes in the evidence); the grammar itself is ANTLR's (trusted as the definition of validity); where the per-reader and whole-input "
+             "readings of validity disagree only 'never panics' is judged.",
+        technique="TLA+ protocol spec (TLC) + decision-table replay + trace validation of sampled loads",
+    ),
+    "C07": dict(
+        category="model_checking",
+        text="TLC enumerates every run x every save point x every state of the restore target and checks RestoreResumes (the restored runner's behavioural projection equals the "
+             "original's at that node entry), ResnapshotEqual, SnapshotsImmutable, UnknownNodeChangesNothing; all behaviours are replayed with every snapshot handle re-read after "
+             "every later step; three real runners with interleaved Next/Snapshot/RestoreAt are trace-validated.",
+        design_ref="DESIGN.md section 6 (C07)", note=CORE_NOTE,
+        technique="TLA+ action properties over snapshot/restore actions (TLC) + behaviour replay + trace validation",
+    ),
+    "C10": dict(
+        category="model_checking",
+        text="TLC enumerates every completion schedule (polls answered waiting, then nil or error) of every command of every generated script and checks PendingNextIsNoOp, "
+             "DoneNeverWaits, handler-exactly-once (through refinement of YarnSem); schedules are replayed with raw handlers; converted handlers of every shape run in real goroutines "
+             "behind gates under the race detector and <<wait n>> is timed, all validated by the trace specification.",
+        design_ref="DESIGN.md section 6 (C10)", note=CORE_NOTE + " Data-race freedom is observed by Go's race detector on the schedules that occurred, not decided by TLC.",
+        technique="TLA+ model checking of completion schedules (TLC) + schedule replay + trace validation under -race",
+    ),
+    "C11": dict(
+        category="model_checking",
+        text="TLC checks CountIsJumpsOut, VisitedIffPositive, UnknownIsZero, monotonicity and only-jumps-change-counts on all paths through generated jump graphs with every "
+             "tracking header; behaviours are replayed with visited/visited_count rendered at every node entry and Snapshot().VisitedNodes read after every step; longer walks trace-validated.",
+        design_ref="DESIGN.md section 6 (C11)", note=CORE_NOTE,
+        technique="TLA+ invariants over a ghost jump counter (TLC) + behaviour replay + trace validation",
+    ),
+    "C12": dict(
+        category="model_checking",
+        text="TLC checks EndAbsorbing (after the end every Next with any argument reports the end, changes nothing, invokes nothing) on every path to an end of every generated "
+             "program; behaviours continue 3 calls past the end with arbitrary arguments and are replayed; random walks are continued past the end and trace-validated.",
+        design_ref="DESIGN.md section 6 (C12)", note=CORE_NOTE,
+        technique="TLA+ invariant (TLC) + behaviour replay past the end + trace validation",
+    ),
+})
+
 NOT_YET = "check not built yet in this session (work in progress; see DESIGN.md build order)"
 
 
